@@ -15,6 +15,8 @@ static char root[300], options[600];
 static tree_state want;
 static int attr[T_MAXF];          /* bit0 foreign owner, bit1 foreign group, bit2 symlink */
 static int restr;                 /* bit0 requireOwner, bit1 requireGroup, bit2 no symlinks, bit3 a permission requirement that every file and directory of the tree satisfies */
+#define HUGE_ID 3000000000u   /* a legal id above 2^31 */
+static int huge;                  /* 0: required ids are 0; 1: required ids are HUGE_ID, no file has them; 2: required ids are HUGE_ID and the files that are not foreign have them */
 #define FOREIGN_UID 12345
 #define FOREIGN_GID 23456
 
@@ -55,6 +57,7 @@ static void gen(void)
   t_gen_state(&want, 2);
   restr = mc_choose(16);
   for (int id = 0; id < ts.nfiles; id++) attr[id] = present(&want, id) ? mc_choose_dev(8) : 0;
+  huge = (restr & 3) ? mc_choose_dev(3) : 0;     /* deviation: the required owner/group id is a large one */
 }
 
 static bool cb_accept(const char *filename, const void *data) { (void)filename; (void)data; return true; }
@@ -156,6 +159,7 @@ static void exec(void)
   int nlist = t_ref_list(&want, list);
   if (mc_tag < 2 && want.mainst[0] == M_ABSENT) nlist = 0;
   sb_printf(&sig, "%s restrictions={%s%s%s%s} attrs={", EPN[mc_tag], (restr & 1) ? "owner " : "", (restr & 2) ? "group " : "", (restr & 4) ? "nosymlink " : "", (restr & 8) ? "permissions(satisfied)" : "");
+  if (huge) sb_printf(&sig, "required-id=%u(%s) ", HUGE_ID, huge == 1 ? "no file has it" : "conforming files have it");
   for (int id = 0; id < ts.nfiles; id++) if (attr[id]) sb_printf(&sig, "%s:%s%s%s ", t_path[id] + strlen(root), (attr[id] & 1) ? "foreign-owner," : "", (attr[id] & 2) ? "foreign-group," : "", (attr[id] & 4) ? "symlink" : "");
   sb_puts(&sig, "} tree="); t_describe(&sig, &want);
   snprintf(mc_case_sig, sizeof mc_case_sig, "%s", sig.s);
@@ -163,14 +167,20 @@ static void exec(void)
   for (int id = 0; id < ts.nfiles; id++) if (attr[id]) apply_attr(id);
 
   econf_reset_security_settings();
-  if (restr & 1) econf_requireOwner(0);
-  if (restr & 2) econf_requireGroup(0);
+  if (restr & 1) econf_requireOwner(huge ? HUGE_ID : 0);
+  if (restr & 2) econf_requireGroup(huge ? HUGE_ID : 0);
+  if (huge == 2) for (int id = 0; id < ts.nfiles; id++) if (present(&want, id) && !(attr[id] & 4))
+    if (lchown(t_path[id], (attr[id] & 1) ? FOREIGN_UID : HUGE_ID, (attr[id] & 2) ? FOREIGN_GID : HUGE_ID) != 0) mc_die("lchown to the large id: %s", strerror(errno));
   if (restr & 4) econf_followSymlinks(false);
   if (restr & 8) econf_requirePermissions(0644, 0755);   /* satisfied everywhere: must not change what the other rules decide */
 
   /* first consulted file that violates an active rule */
   int codes[4], ncodes = 0, viol_at = -1;
-  for (int i = 0; i < nlist && viol_at < 0; i++) { ncodes = viol_codes(attr[list[i]], restr, codes); if (ncodes) viol_at = i; }
+  for (int i = 0; i < nlist && viol_at < 0; i++) {
+    int a = attr[list[i]];
+    if (huge == 1 || (huge == 2 && (a & 4))) a |= 3;      /* nobody owns the large id (a symlink keeps root's ids) */
+    ncodes = viol_codes(a, restr, codes); if (ncodes) viol_at = i;
+  }
 
   econf_file *kf; econf_file **hist; size_t hsize;
   econf_err rc = do_read(&kf, &hist, &hsize);
@@ -198,6 +208,7 @@ static void exec(void)
   release(kf, hist, hsize);
 
   for (int id = 0; id < ts.nfiles; id++) if (attr[id]) undo_attr(id);
+  if (huge == 2) for (int id = 0; id < ts.nfiles; id++) if (present(&want, id) && !attr[id]) if (lchown(t_path[id], 0, 0) != 0) mc_die("lchown back");
   mc_st->compared++;
   if (restr && mc_cost() > 0) mc_st->nontrivial++;
   if (mc_want_sample()) mc_sample("%s -> rc=%d", sig.s, (int)rc);
